@@ -5,7 +5,7 @@ import os, sys, random
 def scenarios():
     return ['vq-euclid', 'vq-cosine', 'vq-heads-sep', 'vq-euclid-masked', 'vq-cosine-masked', 'vq-expiry', 'vq-cosine-expiry', 'vq-cosine-heads-expiry', 'vq-kmeans', 'vq-cosine-kmeans-expiry', 'rvq-cosine-shared', 'rvq-layers-dropout', 'rvq-shared', 'lfq',
             'vq-expiry-scarce', 'vq-cosine-expiry-scarce', 'vq-kmeans-scarce-frozen-first', 'vq-cosine-kmeans-scarce-frozen-first',
-            'vq-kmeans-learnable', 'rvq-kmeans-implicit']
+            'vq-kmeans-learnable', 'rvq-kmeans-implicit', 'vq-default-sync']
 
 
 def build(name, sync=True):
@@ -50,6 +50,8 @@ def build(name, sync=True):
         return VectorQuantize(dim=3, codebook_size=4, kmeans_init=True, kmeans_iters=3, learnable_codebook=True, ema_update=False, sync_codebook=sync), 3
     if name == 'rvq-kmeans-implicit':
         return ResidualVQ(dim=3, num_quantizers=2, codebook_size=4, kmeans_init=True, kmeans_iters=2, implicit_neural_codebook=True, mlp_kwargs=dict(dim_hidden=4, depth=1), sync_codebook=sync), 3
+    if name == 'vq-default-sync':
+        return VectorQuantize(dim=3, codebook_size=6, decay=0.5), 3          # sync_codebook left at its default: inside a process group that means synchronised
     if name == 'lfq':
         return LFQ(dim=3, codebook_size=8, commitment_loss_weight=0.25), 3
     raise KeyError(name)
@@ -70,6 +72,11 @@ def worker(rank, world, initfile, outdir, seed, steps):
     # that moment must not switch off the synchronisation of modules built with sync_codebook=True afterwards
     from vector_quantize_pytorch import VectorQuantize as _ProbeVQ
     _ProbeVQ(dim=2, codebook_size=2)(torch.randn(1, 2, 2))
+    from vector_quantize_pytorch import ResidualVQ as _ProbeRVQ, GroupedResidualVQ as _ProbeGRVQ, LFQ as _ProbeLFQ
+    for _pm in (_ProbeRVQ(dim=2, num_quantizers=3, codebook_size=2, quantize_dropout=True), _ProbeGRVQ(dim=4, groups=2, num_quantizers=2, codebook_size=2, quantize_dropout=True),
+                _ProbeLFQ(dim=2, codebook_size=4)):
+        _pm.train()
+        _pm(torch.randn(1, 2, 4 if isinstance(_pm, _ProbeGRVQ) else 2))          # ... and USED (training-mode forwards) before the group exists
     dist.init_process_group('gloo', init_method='file://' + initfile, rank=rank, world_size=world)
     out = {}
     for si, name in enumerate(scenarios()):
